@@ -37,7 +37,9 @@ def miri_stage(c):
     outdir = os.path.join(c["outdir"], flavour)
     os.makedirs(outdir, exist_ok=True)
     env = dict(c["ENV"])
-    env["MIRIFLAGS"] = "-Zmiri-disable-isolation -Zmiri-ignore-leaks"
+    # deterministic floats: Miri otherwise adds random rounding error to powi & co. (the poetic-literal
+    # value 103 came out as 102.99999999999994 in one thorough run - an artifact of the interpreter, not of rrss)
+    env["MIRIFLAGS"] = "-Zmiri-disable-isolation -Zmiri-ignore-leaks -Zmiri-deterministic-floats"
     tdir = f"{c['TARGET']}/{flavour}"
     base = ["cargo", "+nightly", "miri", "run", "--offline", "--target-dir", tdir] + (["--release"] if release else [])
     # build once (first run compiles), then shards in parallel
@@ -162,7 +164,7 @@ PROPS["C11"] = dict(
     level_text=("Generated word sequences (lengths 1-23 incl. multiples of ten, keywords as words, inner/trailing apostrophes, "
                 "'s/'re suffixes, hyphenated parts, periods/commas/ignorable punctuation and comments in every position, "
                 "accented letters) in assignment and `rock ... like` position; the value rrss computes and prints is compared "
-                "with the correctly rounded decimal numeral of the digit rule (4 ulp, exact for integers < 2^53). Poetic "
+                "with the correctly rounded decimal numeral of the digit rule (8 ulp, exact for integers < 2^53). Poetic "
                 "strings: printed text must equal the text after `says `. Right-hand sides starting with a literal or a "
                 "negative number are run against the reference interpreter."),
     level_note="Trusted: str::parse::<f64> (correct rounding) and f64 Display for reading the printed value back.",
@@ -186,7 +188,7 @@ PROPS["C12"] = dict(
     level_note="Trusted: the recomputation (a dozen lines) and the definition of ignorable characters transcribed in c12.rs.",
     rule=("cases = source texts (token soup, multi-line-biased soup, rendered programs); distinct_nontrivial = distinct texts with >= 2 tokens."),
     require=["tokens_checked", "multi_line_tokens", "suffix_after_multi_line_token", "tokens_after_multi_byte_chars",
-             "texts_with_crlf", "tokens_at_end_of_input", "renderer_maps_compared", "end_positions_checked",
+             "texts_with_crlf", "tokens_at_end_of_input", "renderer_maps_compared", "end_positions_checked", "ast_ranges_checked",
              "set:token_types:70"],
     assumptions=TRUST_BASE,
     stages=dict(quick=[native("dbg", scale=9), native("rel", scale=9)],
@@ -217,12 +219,12 @@ PROPS["C14"] = dict(
     level_text=("The stated laws (symmetry of `is`, isnt / is not as negation, mirror laws of the ordering operators incl. "
                 "error symmetry, (<= and >=) = equality where an ordering exists, logic vs truthiness, compound assignment = "
                 "plain assignment, build k / knock k restores integers and booleans) are evaluated exhaustively over all "
-                "44 x 44 ordered pairs of a universe that covers every kind and every boundary the coercions inspect. The "
+                "70 x 70 ordered pairs of a universe that covers every kind and every boundary the coercions inspect. The "
                 "enumeration of the universe is complete; the universe itself is a finite sample of all values."),
     level_note="No model is involved: the oracle is the relation between two observed results. The build/knock law is checked for integer-valued numbers with |x|+k < 2^53 and for booleans only (false for fractions in IEEE arithmetic for any implementation).",
     rule=("cases = ordered pairs (a, b) of the universe, each evaluated at the API layer and through 9+ programs (prelude builds "
           "arrays, NaN, -0 by statements); distinct_nontrivial = distinct ordered pairs plus distinct program texts executed."),
-    exhaustive="all ordered pairs of the 44-value universe, at both layers, in every run",
+    exhaustive="all ordered pairs of the 70-value universe, at both layers, in every run",
     require=["ordered_pairs_api", "ordered_pairs_program", "law.is_symmetric", "law.is_not_is_negation",
              "law.less_mirrors_greater", "law.error_on_one_side_iff_other", "law.le_and_ge_is_equality",
              "law.compound_assignment_plus", "law.build_then_knock_restores", "error_symmetric_pairs",
@@ -234,7 +236,7 @@ PROPS["C14"] = dict(
 PROPS["C03"] = dict(
     level="exploration",
     technique="history + executable reference model: Val API exhaustively over a value universe against reference tables; generated expression programs against the reference interpreter (stdout and Ok/Err)",
-    level_text=("(a) every ordered pair of the 44-value universe through plus/subtract/multiply/divide/equals/compare and every "
+    level_text=("(a) every ordered pair of the 70-value universe through plus/subtract/multiply/divide/equals/compare and every "
                 "value through negate/is_truthy/inc/to_string_for_output, compared with explicit reference tables (all 36 kind "
                 "pairs and the value-dependent cells); printed numbers are additionally checked without the implementation's "
                 "formatter (reads back to the same bits, no exponent, minimal digits). (b) random expressions (depth <= 4, list "
@@ -349,16 +351,19 @@ PROPS["C08"] = dict(
     exhaustive="per program: every write-call and read-call position x every fault kind",
     require=["programs", "fault_plans_run", "fault_plans_held", "histories.fault_free", "histories.short_writes",
              "histories.interrupted", "histories_with_read_write_interleaving", "fault_kind.write_error",
-             "fault_kind.write_zero", "fault_kind.read_error", "fault_kind.read_invalid_utf8", "events_checked"],
+             "fault_kind.write_zero", "fault_kind.read_error", "fault_kind.read_invalid_utf8", "events_checked",
+             "cli_fault.stdout_device_full", "cli_fault.stdout_closed_pipe", "cli_fault.stdin_is_a_directory",
+             "cli_fault.stdin_invalid_utf8", "cli_fault_runs_held"],
     assumptions=TRUST_BASE,
-    stages=dict(quick=[native("dbg", scale=18)], thorough=[native("dbg"), native("rel")]),
+    stages=dict(quick=[native("dbg", scale=18), custom("c08_cli_faults", builds=["cli", "dbg"], n=48)],
+                thorough=[native("dbg"), native("rel"), custom("c08_cli_faults", builds=["cli", "dbg"], n=600)]),
 )
 
 PROPS["C09"] = dict(
     level="exploration",
     technique="outcome monitor (catch_unwind, process-level isolation per execution with rlimits), H1 unsafe-precondition traps, H3 statement/loop fuel; ill-typed program generators; Miri on a sample",
     level_text=("Every parser-accepted program from four workloads (programs the property names and their neighbours; ~70 "
-                "statement templates x all 44 universe values x 15 extreme numbers; the syntax-directed generator over a tiny "
+                "statement templates x all 70 universe values x 15 extreme numbers; the syntax-directed generator over a tiny "
                 "pool of names used as variables AND functions; statement-level mutants of the valid programs of C03-C07) is "
                 "executed in a forked child under an address-space and CPU limit, in the debug and the release profile. A panic "
                 "(incl. debug assertions and overflow checks), a trapped unsafe precondition, a signal or an abort is a "
@@ -592,6 +597,8 @@ def c20_cli(c):
                           tier=c["tier"], seed=c["seed"])
             merged.add_violation(f"cli:usage:{what}:exit_0", f"`{' '.join(cmd[1:])}` exited with status 0", replay)
     merged.evaluations += runs
+    pe = merged.profiles.setdefault(f"binary:{flavour}", dict(evaluations=0, shards=0))
+    pe["evaluations"] += runs
     merged.counters[f"process_runs.{flavour}"] = merged.counters.get(f"process_runs.{flavour}", 0) + runs
     for k, v in classes.items():
         merged.counters[f"outcome.{k}"] = merged.counters.get(f"outcome.{k}", 0) + v
@@ -699,7 +706,7 @@ PROPS["C18"] = dict(
                 "-0, inf, NaN, strings with spaces / punctuation / balanced parentheses / line breaks) and near-miss non-constants, "
                 "all three target forms. The set of (statement, target, value) the pass reports must equal the model's; the line must "
                 "be the statement's (single-line statements); the words of every suggestion must spell the printed value digit by "
-                "digit; for a plain-variable target the suggested line must parse, run and give the value back (4 ulp / exact "
+                "digit; for a plain-variable target the suggested line must parse, run and give the value back (8 ulp / exact "
                 "integers; 9 significant digits for numerals longer than 25 digits); values without a poetic spelling must get no "
                 "suggestion; the linter must not panic (debug and release)."),
     level_note="Statements stretched over several lines by a multi-line string have no single correct line: their line is not checked.",
@@ -898,3 +905,84 @@ def fuzz_stage(c):
     merged.counters[f"fuzz.{target}.artifacts_confirmed_by_monitors"] = confirmed
     if execs == 0:
         c["inconclusive"].append("libFuzzer reported no executions")
+
+
+def c08_cli_faults(c):
+    """Stream faults at the process boundary of the shipped binary: a full device / closed pipe on
+    stdout, a directory / invalid UTF-8 on stdin. `rrss exec` must report a runtime error on stderr and
+    must not panic (exit 101, 'panicked')."""
+    import concurrent.futures as cf
+    import subprocess
+    st = c["stage"]
+    binary = c["binaries"]["cli"]
+    vcheck = c["binaries"]["dbg"]
+    merged = c["merged"]
+    d = os.path.join(c["outdir"], "cli_faults")
+    os.makedirs(d, exist_ok=True)
+    n = st.get("n", 40)
+    rc, out, err, to = c["run_proc"]([vcheck, "emit", "C08", "--out", d, "--seed", str(c["seed"]), "--n", str(n)], 600)
+    if rc != 0:
+        c["inconclusive"].append(f"emit C08 failed: {err[-300:]}")
+        return
+
+    def run(cmd, stdin, stdout):
+        try:
+            p = subprocess.run(cmd, stdin=stdin, stdout=stdout, stderr=subprocess.PIPE, env=c["ENV"], timeout=60)
+            return p.returncode, p.stderr.decode("utf-8", "replace")
+        except subprocess.TimeoutExpired:
+            return None, ""
+
+    def one(i):
+        path = f"{d}/case_{i}.rock"
+        if not os.path.exists(path):
+            return None
+        info = json.load(open(f"{d}/case_{i}.json"))
+        res = []
+        cmd = [binary, "exec", path]
+        stdin_path = f"{d}/case_{i}.stdin"
+        if info["writes"] > 0:
+            with open(stdin_path, "rb") as fin, open("/dev/full", "wb") as full:
+                res.append(("stdout_device_full", True) + run(cmd, fin, full))
+            r, w = os.pipe()
+            os.close(r)
+            with open(stdin_path, "rb") as fin:
+                try:
+                    res.append(("stdout_closed_pipe", True) + run(cmd, fin, w))
+                finally:
+                    os.close(w)
+        if info["reads"] > 0:
+            fd = os.open(d, os.O_RDONLY)
+            try:
+                res.append(("stdin_is_a_directory", info["reads_before_writes"]) + run(cmd, fd, subprocess.DEVNULL))
+            finally:
+                os.close(fd)
+            bad = f"{d}/case_{i}.bad"
+            open(bad, "wb").write(b"\xff\xfe\xfd\n" * 4)
+            with open(bad, "rb") as fin:
+                res.append(("stdin_invalid_utf8", True) + run(cmd, fin, subprocess.DEVNULL))
+        return i, res
+
+    with cf.ThreadPoolExecutor(max_workers=c["NCPU"]) as ex:
+        results = [r for r in ex.map(one, range(n)) if r is not None]
+    runs = 0
+    for i, res in results:
+        for what, must_fail, rc, err in res:
+            runs += 1
+            merged.counters[f"cli_fault.{what}"] = merged.counters.get(f"cli_fault.{what}", 0) + 1
+            if rc is None:
+                merged.inconclusive["cli_watchdog"] = merged.inconclusive.get("cli_watchdog", 0) + 1
+                continue
+            src = open(f"{d}/case_{i}.rock", encoding="utf-8").read()
+            cmd = [binary, "exec", f"{d}/case_{i}.rock"]
+            if rc == 101 or "panicked" in err or rc < 0:
+                sig = f"cli_fault:{what}:panic_or_signal"
+                merged.add_violation(sig, f"exit {rc}; stderr {err[-400:]!r}", dict(property="C08", signature=sig, case=dict(src=src), cmd=cmd,
+                                     note=f"run with {what}", tier=c["tier"], seed=c["seed"]))
+            elif must_fail is True and "Runtime error: " not in err:
+                sig = f"cli_fault:{what}:no_runtime_error_reported"
+                merged.add_violation(sig, f"exit {rc}; stderr {err[-400:]!r}", dict(property="C08", signature=sig, case=dict(src=src), cmd=cmd,
+                                     note=f"run with {what}", tier=c["tier"], seed=c["seed"]))
+            else:
+                merged.counters["cli_fault_runs_held"] = merged.counters.get("cli_fault_runs_held", 0) + 1
+    merged.evaluations += runs
+    merged.counters["cli_fault_runs"] = merged.counters.get("cli_fault_runs", 0) + runs
